@@ -88,16 +88,25 @@ struct KShared {
 	}
 	static void extra(H& d, const H& s, int how, int o)
 	{
-		if (how % 3 == 0) {
+		if (how % 4 == 0) {
 			Shared<Item> it = s.as<Item>(); // converting assignment from an unrelated temporary handle of the derived type
 			d = it;
 		}
-		else if (how % 3 == 1)
+		else if (how % 4 == 1)
 			d = (Base*)new Item(o, s ? s.as<Item>() : Shared<Item>()); // operator=(T*)
-		else
+		else if (how % 4 == 2)
 			d = Shared<Base>(Shared<Item>(new Item(o, s ? s.as<Item>() : Shared<Item>()))); // converting constructor
+		else {
+			// a handle that wraps a null raw pointer (a factory that returned 0) has a counted core like any other: assign it,
+			// copy it, then drop the source -- the core must live as long as any of them (ASan sees it otherwise)
+			H nul((Base*)0);
+			H nul2(nul);
+			d = nul;
+			nul = nul2;
+		}
 	}
-	static bool extra_makes_new(int how) { return how % 3 != 0; }
+	static bool extra_null(int how) { return how % 4 == 3; }
+	static bool extra_makes_new(int how) { return how % 4 == 1 || how % 4 == 2; }
 };
 
 ASL_SMART_CLASS(Node, SmartObject)
@@ -147,6 +156,7 @@ struct KSmart {
 			d = H(s.ptr()); // handle made from the raw pointer
 	}
 	static bool extra_makes_new(int how) { return how % 3 == 1; }
+	static bool extra_null(int) { return false; }
 };
 
 struct ATree {
@@ -180,6 +190,7 @@ struct KArray {
 	}
 	static void extra(H& d, const H& s, int, int) { d = H(s); }
 	static bool extra_makes_new(int) { return false; }
+	static bool extra_null(int) { return false; }
 };
 
 struct MTree {
@@ -217,6 +228,7 @@ struct KMap {
 	}
 	static void extra(H& d, const H& s, int, int) { d = H(s); }
 	static bool extra_makes_new(int) { return false; }
+	static bool extra_null(int) { return false; }
 };
 
 struct HTree {
@@ -254,6 +266,7 @@ struct KHash {
 	}
 	static void extra(H& d, const H& s, int, int) { d = H(s); }
 	static bool extra_makes_new(int) { return false; }
+	static bool extra_null(int) { return false; }
 };
 
 // ---- model -----------------------------------------------------------------------------------------------------
@@ -350,9 +363,15 @@ static void run_graph(const vf::Case& c)
 				break;
 			}
 			case G_EXTRA:
-				if (K::extra_makes_new(how)) {
+				if (K::extra_null(how)) {
+					what = vf::str("v", a, " = <handle wrapping a null raw pointer>, copied and assigned around");
+					nnull += m.var[a] >= 0;
+					K::extra(v[a], v[b], how, 0);
+					m.var[a] = -1;
+				}
+				else if (K::extra_makes_new(how)) {
 					int id = next_oid++;
-					what = vf::str("v", a, " = <form ", how % 3, " of a new object ", id, " owning a copy of v", b, ">");
+					what = vf::str("v", a, " = <form ", how % 4, " of a new object ", id, " owning a copy of v", b, ">");
 					K::extra(v[a], v[b], how, id);
 					m.child[id] = m.var[b];
 					m.ever.insert(id);
@@ -361,7 +380,7 @@ static void run_graph(const vf::Case& c)
 				else {
 					if (m.var[b] < 0)
 						continue;
-					what = vf::str("v", a, " = <form ", how % 3, " of another handle to the object of v", b, ">");
+					what = vf::str("v", a, " = <form ", how % 4, " of another handle to the object of v", b, ">");
 					K::extra(v[a], v[b], how, 0);
 					m.var[a] = m.var[b];
 				}
@@ -448,7 +467,7 @@ void vf_search(const vf::Args& a)
 		}
 	}
 	auto opg = gen::tuple(gen::weightedElement<int>({{4, G_NEW}, {3, G_ASSIGN}, {4, G_WALK}, {2, G_RESET}, {1, G_COPYDROP}, {2, G_EXTRA}}), vf::irange<int>(0, NVAR - 1),
-	                      gen::weightedElement<int>({{3, 0}, {2, 1}, {1, 2}, {1, 3}}), vf::irange<int>(0, 5));
+	                      gen::weightedElement<int>({{3, 0}, {2, 1}, {1, 2}, {1, 3}}), vf::irange<int>(0, 7));
 	auto g = gen::mapcat(vf::irange<int>(0, 4), [=](int kind) {
 		return gen::map(gen::resize(40, gen::container<std::vector<std::tuple<int, int, int, int>>>(opg)), [=](const std::vector<std::tuple<int, int, int, int>>& v) {
 			vf::Case c;
